@@ -36,19 +36,22 @@ def gen(rng):
     while True:
         nw = rng.choice([2, 3, 4, 6, 8, 12, 16, rng.randint(1, 16)]); s_ = rng.random() < 0.6
         nf = rng.choice([0, 1, nw // 2, nw, -2, nw + 3, rng.randint(-8, nw + 8)])
+        all_int = rng.random() < 0.1          # an all-integer object: integer format, integral scale and bias given as Python ints, integer inputs (the value type stays int)
+        if all_int: nf = 0
         lo, hi = S.fmt_bounds(s_, nw); span = hi - lo + 1
         j = rng.randint(0, 6)
         scale = Fraction(rng.choice([1, -1, 3, -3, 5, 7, 2, 4, 1, 1]), 2 ** j)
         if rng.random() < 0.3: scale = Fraction(1)
         bias = Fraction(rng.randint(-64, 64), 2 ** rng.randint(0, 4))
         if rng.random() < 0.15: bias = Fraction(0)
+        if all_int: scale = Fraction(rng.choice([1, 1, 1, 2, -1, 3])); bias = Fraction(rng.choice([0, 3, -5, 17, rng.randint(-64, 64)]))
         if scale == 1 and bias == 0: bias = Fraction(1, 2)
         n = rng.choice([1, 1, 3])
         ts = []
         for _ in range(n):
             c = rng.choice([lo, hi, 0, lo - 1, hi + 1, rng.randint(lo - span // 2 - 1, hi + span // 2 + 1)])
             t = (Fraction(c) + Fraction(rng.choice([0, 0, 1, 2, 3]), 4)) / Fraction(2) ** nf
-            if rng.random() < 0.4:      # make the INPUT v an integer (integer carriers have their own vdtype handling)
+            if rng.random() < 0.4 or all_int:      # make the INPUT v an integer (integer carriers have their own vdtype handling)
                 v_int = Fraction(math.floor(scale * t + bias)); t = (v_int - bias) / scale
             ts.append(t)
         vs = [scale * t + bias for t in ts]
@@ -57,8 +60,8 @@ def gen(rng):
         if not ok: continue
         return {'s': s_, 'nw': nw, 'nf': nf, 'r': rng.choice(RMODES), 'o': rng.choice(OMODES), 'scale': scale, 'bias': bias, 'vs': vs, 'ts': ts,
                 'route': rng.choice(['ctor', 'call', 'set_val', 'ctor_like', 'equal', 'like_method']), 'carrier': rng.choice(['float', 'int', 'int', 'npint', 'listint', 'np:uint8', 'np:int8', 'np:int16', 'np:uint16', 'np:uint32', 'np:uint64', 'np:float32', 'fxp', 'fxp', 'listnp:uint64', 'listnp:uint64']),
-                'pyint_params': rng.random() < 0.5,      # integral scale / bias passed as Python ints (not floats)
-                'np_params': rng.choice([None, None, None, 'float32', 'float16', 'float64'])}
+                'pyint_params': all_int or rng.random() < 0.5,      # integral scale / bias passed as Python ints (not floats)
+                'np_params': None if all_int else rng.choice([None, None, None, 'float32', 'float16', 'float64'])}
 
 def jcase(c):
     return {k: (str(v) if isinstance(v, Fraction) else ([str(t) for t in v] if isinstance(v, list) else v)) for k, v in c.items()}
@@ -114,6 +117,9 @@ def run_cases(cases, res):
                 else: x.set_val(val)
             obs = {'codes': lib.codes_of(x), 'get': lib.vals_of(x.get_val()), 'upper': Fraction(float(x.upper)), 'lower': Fraction(float(x.lower)), 'prec': Fraction(float(x.precision)),
                    'status': lib.status3(x)}
+            # reading is an observation: the stored codes are the same after it, and a second reading returns the same values
+            obs['codes_after_read'] = lib.codes_of(x); obs['get2'] = lib.vals_of(x.get_val()); _ = str(x); _ = (x == 0)
+            obs['codes_after_reads'] = lib.codes_of(x)
             # a raw write of the same codes, then a widening resize: the object keeps its scaling (reading, limits)
             x.set_val(np.array(obs['codes']) if len(obs['codes']) > 1 else obs['codes'][0], raw=True)
             obs['get_after_raw'] = lib.vals_of(x.get_val())
@@ -133,6 +139,8 @@ def run_cases(cases, res):
         res.sample(jcase(c))
         if obs['codes'] != want:
             res.fail(jcase(c), 'C17: stored code is not the C01 quantization of (v - bias)/scale', expected=want, got=obs['codes']); continue
+        if obs['codes_after_read'] != obs['codes'] or obs['codes_after_reads'] != obs['codes'] or obs['get2'] != obs['get']:
+            res.fail(jcase(c), 'C17: reading a scaled object (get_val, str, ==) changed its stored codes or a second reading returned other values', expected=(obs['codes'], [str(g) for g in obs['get']]), got=(obs['codes_after_read'], obs['codes_after_reads'], [str(g) for g in obs['get2']])); continue
         want_get = [c['scale'] * (Fraction(cd) * lsb) + c['bias'] for cd in obs['codes']]
         if all(exact_double(c['scale'] * (Fraction(cd) * lsb)) and exact_double(w) for cd, w in zip(obs['codes'], want_get)) and obs['get'] != want_get:
             res.fail(jcase(c), 'C17: value read back is not scale*code*2^-n_frac + bias', expected=[str(w) for w in want_get], got=[str(g) for g in obs['get']]); continue
